@@ -33,6 +33,8 @@ class BudgetExceeded(EngineSignal):
     pass
 
 
+import os
+SLOWQ = float(os.environ.get("PYSYM_SLOWQ", "0") or 0)
 _tls = threading.local()
 
 
@@ -112,6 +114,7 @@ class Engine:
         self.mode = "symbolic"
         self.known_preds = []    # (label, z3 bool) known-finding classes registered by harness
         self.memo = {}
+        self.deadline = time.perf_counter() + float(os.environ.get("PYSYM_PATH_BUDGET", "300"))
 
     # -- low level ------------------------------------------------------------------------------
     def fresh(self, base, sort="int"):
@@ -135,8 +138,15 @@ class Engine:
 
     def _check(self, *assumptions):
         t0 = time.perf_counter()
+        if t0 > self.deadline:
+            raise BudgetExceeded("path exceeded its wall-clock budget")
         r = self.solver.check(*assumptions)
-        self.res.solver_s += time.perf_counter() - t0
+        dt = time.perf_counter() - t0
+        if SLOWQ and dt > SLOWQ:
+            import traceback
+            st = [l for l in traceback.format_stack(limit=14) if "interp.py" not in l]
+            print("SLOW QUERY %.2fs %s assumptions=%s\n%s" % (dt, r, [str(a)[:200] for a in assumptions], "".join(st[-5:])), flush=True)
+        self.res.solver_s += dt
         self.res.queries += 1
         return r
 
